@@ -67,6 +67,19 @@ CHECKS.update({
         technique="Lean 4 proof over a finite transition system (certificate checked by the kernel) + scripted-command correspondence + end-to-end fault injection"),
 })
 
+CHECKS.update({
+    "C04": dict(
+        category="proof",
+        text="Partial. Proved in Lean 4 for the prompter's algorithm over an abstract clock, for every play, repeat spec and every environment (durations, successes, arbitrary non-negative delays of every step): records_wellformed, line_order, barrier (no action of a later group starts before every action of an earlier group has stopped; acts and repetitions sequential), tempo_lower_bound, act_starts_monotone, concurrent_lines_independent. The real binary runs generated plays whose commands write a wall-clock ledger; the observed trace must satisfy the same ordering / barrier / tempo inequalities (Lean predicates evaluated on it) and the CSV's recorded start/duration/status must be explained by one epoch.",
+        note="Partial: that goroutines, exec and the kernel realise the abstract steps is observed on generated plays, not proved. Lower bounds only, 5 ms slack.",
+        technique="Lean 4 proof (induction over the loop graph) + trace specification evaluated on ledgers of real runs"),
+    "C05": dict(
+        category="proof",
+        text="Partial. Proved in Lean 4 for the prompter model, every play / repeat spec / environment / fuel: exit0_all_performed (an ok, finished run performed exactly expectedTrace: every position once per pass, repeated acts N times in total for `repeat N times`), failure_stops, error_iff_untolerated_failure, tolerated_continues, repeat_count_total. The real binary runs generated plays (failures at every position, tolerated or not, repeats, spotlights that keep running / exit by themselves / are absent); the set of performed action occurrences (ledger) and the exit status must equal the model's.",
+        note="Partial: runtime as C04; the conductor's decision which component ends the play is exercised end-to-end (self-exiting spotlights), not proved.",
+        technique="Lean 4 proof + differential comparison of performed action sets on real runs"),
+})
+
 NOT_APPLICABLE = [
     {"property_id": "C14", "reason": "data-race freedom is a property of memory accesses under the Go memory model; no executable Lean model compared on values can exhibit an unsynchronised access (DESIGN.md 5/C14)"},
 ]
